@@ -178,13 +178,21 @@ Definition mon_step (cfg peer : list Z) (m : mon) (o : obs) : mon :=
         (comb (m_code m) (comb (a_code a) (viol (va1 || vscale || vw || ve1 || vd || vdp || ve2))))
         (Z.lor (m_tags m) tags).
 
+(* (h) what the handshake left behind: the window field of the peer's SYN-ACK is never scaled
+   (RFC 7323 2.2) and the send scale is the one the peer offered (none offered: 0).  cfg 5 = window
+   field of the SYN-ACK, cfg 6 = the peer's scale option (-1 = absent; the stack always offers one). *)
+Definition hs_viol (cfg : list Z) (init : tcp) : bool :=
+  if Nat.ltb (length cfg) 7 then false
+  else negb (sndWnd (SN init) =? cfg_get cfg 5)
+       || negb (sndWndScale (SN init) =? Z.max 0 (cfg_get cfg 6)).
+
 Definition mon_init (cfg : list Z) (init : tcp) : mon :=
   let irs := cfg_get cfg 1 in
   let s := rcvWndScale (RC init) in
   let w0 := zmin 65535 (Z.shiftr (w32 (rcvAcc (RC init) - rcvNxt (RC init))) s) in
   mkMon init (sndNxt (SN init)) (w32 (rcvNxt (RC init) + Z.shiftl w0 s)) w0
-        (w32 (sndUna (SN init) + sndWnd (SN init))) 0
-        (w32 (rcvNxt (RC init) - irs - 1)) [] 0 0.
+        (w32 (sndUna (SN init) + (if Nat.ltb (length cfg) 7 then sndWnd (SN init) else cfg_get cfg 5))) 0
+        (w32 (rcvNxt (RC init) - irs - 1)) [] (viol (hs_viol cfg init)) 0.
 
 Definition mon_run (c : case) : mon :=
   match c with
